@@ -8,7 +8,7 @@ package message
 //vsym:model encoding/json.Unmarshal m15Unmarshal
 //vsym:replay same-harness
 //vsym:expect-cover C15.legacy.roundtrip C15.legacy.with-touchless-sudo C15.legacy.total-ok C15.legacy.total-error C15.json.roundtrip C15.json.missing-field C15.json.null C15.marshal.refused
-//vsym:bound H15_legacy_roundtrip: interface version any int below 7; client version, user, host of 1..2 symbolic printable ASCII bytes (0x21-0x7e) without '@'; three symbolic booleans; touchless-sudo absent or present with hosts of 0..2 such bytes and time in {-99,-1,0,1,999}
+//vsym:bound H15_legacy_roundtrip: interface version any int below 7; client version, user, host of 1..2 symbolic printable ASCII bytes (0x21-0x7e) without '@'; three symbolic booleans; touchless-sudo absent or present with hosts of 0..2 such bytes and time in {-99,-1,0,1,999,2^31,-2^31-1,2^40}
 //vsym:bound H15_legacy_total: arbitrary text of 0..5 (thorough 0..7) symbolic bytes, and structured texts with duplicate keys, empty values, '=' in values and stray spaces
 //vsym:bound H15_json: interface version any int >= 7; every string field 0..1 symbolic bytes; extension map of 0..1 entries; decoder result for other input: error, null, or an arbitrary object
 //vsym:assume encoding/json is modelled by its contract (Marshal records the value, Unmarshal of that text restores it; other input: error when the first byte cannot start a JSON value, else error / null / arbitrary object); strings.TrimSpace over symbolic bytes is executed from source under the stated ASCII bound
@@ -109,7 +109,7 @@ func H15_legacy_roundtrip() {
 	h15Printable(a.Username, false)
 	h15Printable(a.Hostname, false)
 	if vChoose(2, "touchless-sudo") == 1 {
-		times := []int64{-99, -1, 0, 1, 999}
+		times := []int64{-99, -1, 0, 1, 999, 2147483648, -2147483649, 1 << 40}
 		a.TouchlessSudo = &TouchlessSudo{
 			IsFirefighter: vNondetBool("firefighter"),
 			Hosts:         vNondetString("hosts", vChoose(3, "hosts-len")),
@@ -261,8 +261,10 @@ func H15_json() {
 	m15Obj = obj
 	text := "null"
 	if m15Other == 2 {
-		text = "{\"model\":1}"
+		// a JSON object whose string content happens to look like legacy tokens
+		text = "{\"model\":\" req=u@h SSHClientVersion=9.9 \"}"
 		if vIsNative() {
+			obj.Exts = map[string]interface{}{"k": " req=u@h SSHClientVersion=9.9 "}
 			bs, _ := json.Marshal(obj)
 			text = string(bs)
 		}
